@@ -86,7 +86,7 @@ func genVT(r *rand.Rand, depth int, strGen func() string) *VT {
 		return t
 	default:
 		n := r.Intn(5)
-		t := &VT{Kind: 'M', Rep: r.Intn(6)}
+		t := &VT{Kind: 'M', Rep: r.Intn(8)}
 		seen := map[string]bool{}
 		for i := 0; i < n; i++ {
 			key := strGen()
@@ -203,6 +203,32 @@ func buildMap(keys []string, vals []value.Value, rep int) value.Map {
 	case 4: // literal, then evaluated
 		v, _ := lm(0, n).Eval()
 		return v.(value.Map)
+	case 6: // function-backed map with a declared key that is unavailable for this value
+		type holder struct{ m map[string]value.Value }
+		decl := append([]string{}, keys...)
+		ghost := "ghost-key"
+		for _, k := range keys {
+			if k == ghost {
+				ghost = ""
+			}
+		}
+		if ghost != "" {
+			decl = append(decl[:len(decl)/2:len(decl)/2], append([]string{ghost}, decl[len(decl)/2:]...)...)
+		}
+		h := map[string]value.Value{}
+		for i := 0; i < n; i++ {
+			h[keys[i]] = vals[i]
+		}
+		fac := value.NewFuncMapFactory[value.Map](func(_ value.Map, key string) (value.Value, bool) { v, ok := h[key]; return v, ok }, decl...)
+		return fac.Create(value.EmptyMap)
+	case 7: // struct wrapper (toMapWrapper)
+		tm := value.NewToMap[int]()
+		for i := 0; i < n; i++ {
+			v := vals[i]
+			tm.Attr(keys[i], func(int) value.Value { return v })
+		}
+		m, _ := tm.Create(0)
+		return m
 	case 5: // put on top of a merge
 		if n >= 1 {
 			a, b := lm(0, (n-1)/2), lm((n-1)/2, n-1)
